@@ -229,6 +229,10 @@ def _run_pdu(case):
             labels.append('two-faults')
         req = dec.decode(pdu)
         if req is None:
+            if areq.get('data_len') is not None and areq['data_len'] != areq['byte_count']:
+                # the PDU is longer or shorter than its own byte count says: malformed below the level this property speaks
+                # about (its "byte count contradicts quantity" is a well-delimited request); refusing to decode it is allowed (C12)
+                return Outcome([], labels + ['length-malformed-pdu-refused'], False)
             discs.append(Disc('not-decoded', 'request %s: decoder returned None' % pdu.hex()[:60]))
             return Outcome(discs, labels, True)
         rsp = req.execute(slave)
